@@ -62,7 +62,7 @@ func refLeaseEffect(op int, p mSnap, now time.Time, d time.Duration, reason stri
 
 var mLeaseMenu = []string{"L0", "L1", "L2", "S0", "zz", "", " L0"}
 
-// verif:harness props=C04,C02 tier=quick native=yes weight=25
+// verif:harness props=C04,C02 tier=quick native=yes weight=25 tonly=C04
 // verif:bounds N=2 live messages (thorough 3), each in any of the 5 states with arbitrary timestamps/attempt; presented lease id from {current of each item, superseded id still indexed, unknown, blank, blank-padded}; arbitrary delay/extension incl. 0 and negative; delivered-retention on/off; dangling lease-index entries explored
 func VerifC04LeaseOps() {
 	n := 2
@@ -143,7 +143,7 @@ func refBatch(op int, cur []mSnap, ids []string, now time.Time, d time.Duration,
 	return
 }
 
-// verif:harness props=C04 tprops=C02 tier=quick native=yes weight=90
+// verif:harness props=C04 tier=quick native=yes weight=90
 // verif:bounds N=2 messages (thorough 3); batch of 2 lease ids (thorough 3) drawn with repetition from {current, superseded-but-indexed, unknown, blank, padded}; ack/nack/mark-dead batch; arbitrary clock and delay
 func VerifC04LeaseBatch() {
 	n, k := 2, 2
